@@ -433,6 +433,9 @@ fn main() {
                 // model prediction vs every backend, step by step (reported, not judged here)
                 for (i, (s, obs)) in steps.iter().zip(got.iter()).enumerate() {
                     for o in obs {
+                        if matches!(s["o"]["op"].as_str(), Some("law") | Some("ord")) {
+                            continue;
+                        }
                         if (o["live"] != s["live"] || o["tomb"] != s["tomb"]) && drift.len() < 30 {
                             drift.push(json!({"case":id,"step":i,"backend":o["b"],"model":{"live":s["live"],"tomb":s["tomb"]},
                                 "impl":{"live":o["live"],"tomb":o["tomb"],"panic":o["panic"]}}));
